@@ -746,7 +746,7 @@ func c05Run(c *vlib.Ctx, idx int) {
 		if sumMem > o.Mem+eps {
 			viol("OVERCOMMIT", "mem/"+nt, fmt.Sprintf("offer %s of %s has mem %g; the ACCEPT launches %d task(s) asking for %g in total", o.ID, o.Hostname, o.Mem, len(ts), sumMem))
 		}
-		if o.CPU < 4 || o.Mem < 2048 {
+		if (o.CPU < 4 || o.Mem < 2048) && o.Hostname != "hostF" {
 			c.Count("tight_offers_used", 1)
 		}
 	}
